@@ -166,16 +166,15 @@ pub fn get_claims(jwt: Option<&str>, config: &Config) -> AuthorizationResult<Jwt
         if let Some(token) = jwt {
             let header = decode_header(token)?;
 
-            let (alg, key) = match &header.alg {
-                Algorithm::ES256 => (header.alg, DecodingKey::from_ec_pem(key.as_ref())?),
-                Algorithm::EdDSA => (header.alg, DecodingKey::from_ed_pem(key.as_ref())?),
-                Algorithm::HS256 => (header.alg, DecodingKey::from_secret(key.as_ref())),
-                _ => {
-                    return Err(AuthorizationError::UnsupportedEncryptionAlgorithm(
-                        header.alg,
-                    ));
-                }
-            };
+            // The configured key decides which algorithm is acceptable, not the token: a public key
+            // (PEM) must never be used as an HMAC secret just because the token header says HS256,
+            // otherwise everybody who knows the public key can sign tokens.
+            let (alg, key) = decoding_key(key);
+            if header.alg != alg {
+                return Err(AuthorizationError::UnsupportedEncryptionAlgorithm(
+                    header.alg,
+                ));
+            }
 
             let validation = Validation::new(alg);
             let token = decode::<JwtClaims>(token, &key, &validation)?;
@@ -185,6 +184,16 @@ pub fn get_claims(jwt: Option<&str>, config: &Config) -> AuthorizationResult<Jwt
         }
     } else {
         Err(AuthorizationError::MissingSecret)
+    }
+}
+
+fn decoding_key(key: &str) -> (Algorithm, DecodingKey) {
+    if let Ok(key) = DecodingKey::from_ec_pem(key.as_ref()) {
+        (Algorithm::ES256, key)
+    } else if let Ok(key) = DecodingKey::from_ed_pem(key.as_ref()) {
+        (Algorithm::EdDSA, key)
+    } else {
+        (Algorithm::HS256, DecodingKey::from_secret(key.as_ref()))
     }
 }
 
